@@ -589,6 +589,13 @@ def memo_rules(ctx, pid):
                             % pid)
     reach = CG.reachable(prog, roots)
     reach_nodes = {id(fi.node): fi for fi in reach.values()}
+    # a known function split into a delegate and its old body (loader):
+    # callers are analysed against the body; the delegate runs whenever the
+    # body is reached
+    for core, wrapper in getattr(prog, 'splits', {}).items():
+        if core in reach and wrapper in prog.all_funcs:
+            w = prog.all_funcs[wrapper]
+            reach_nodes[id(w.node)] = w
     n_mod = n_writers = 0
     for m in prog.modules.values():
         found, nw = scan_module(m.tree)
